@@ -22,7 +22,7 @@ from ..sim import market_builder, op, amount, HarnessError, AMOUNT_RESOLVERS
 from ..canon import D
 from ..ref import gmx as R
 
-from demeter import MarketInfo
+from demeter import MarketInfo, TokenInfo
 from demeter.broker import MarketTypeEnum
 from demeter.gmx import GmxMarket, GmxV2Market
 from demeter.gmx._typing2 import GmxV2Pool
@@ -100,6 +100,8 @@ def build_gmx1(sim, mw):
             raise HarnessError(f"token {t}: world decimals differ from market decimals")
     key = MarketInfo(mw["name"], MarketTypeEnum.gmx_v1)
     market = GmxMarket(key, tokens=toks)
+    for t in mw.get("registered_again", []):  # add_token with a token the market already knows (an equal TokenInfo, a new object)
+        market.add_token(TokenInfo(str(t).lower() if len(mw["registered_again"]) % 2 else str(t), int(mw["tokens"][t])))
     market.data = v1_frame(mw, sim.index)
     sim.mdata[mw["name"]] = {"mw": mw, "kind": "gmx1"}
     return market
@@ -145,7 +147,7 @@ def v1_interval(mw, row: int) -> Fraction:
 
 
 def v2_state(mw, row: int) -> R.V2State:
-    f = lambda c: Fraction(float(mw[c][row]))
+    f = lambda c: None if float(mw[c][row]) != float(mw[c][row]) else Fraction(float(mw[c][row]))
     return R.V2State(f("longAmount"), f("shortAmount"), f("virtualSwapInventoryLong"), f("virtualSwapInventoryShort"),
                      f("poolValue"), f("marketTokensSupply"), f("impactPoolAmount"), f("longPrice"), f("shortPrice"))
 
@@ -451,6 +453,10 @@ def gen_gmx2_market(rng, name, n, prices, long="WETH", short="USDC", index=None,
     if config:
         mw["config"] = dict(config)
     mw.update(cols)
+    if opts.get("no_virtual_inventory"):
+        # a market without virtual inventory: the two cells are empty in the file, i.e. NaN in the frame
+        mw["virtualSwapInventoryLong"] = ["nan"] * n
+        mw["virtualSwapInventoryShort"] = ["nan"] * n
     return mw
 
 
